@@ -34,6 +34,8 @@ import (
 	"github.com/prometheus/alertmanager/featurecontrol"
 )
 
+var newMu sync.Mutex
+
 type logBuf struct {
 	mu sync.Mutex
 	b  bytes.Buffer
@@ -122,7 +124,13 @@ func (in *Instance) Start() error {
 	if in.mod != nil {
 		in.mod(&opts)
 	}
+	// One app.New at a time: building the API analyses the embedded OpenAPI document through go-openapi's
+	// process-wide schema cache, which is not safe for concurrent use (seen once in ~300 parallel starts as "fatal
+	// error: concurrent map writes"). The product builds one application per process, so this is an artefact of
+	// running many instances in one process, not a finding.
+	newMu.Lock()
 	a, err := app.New(opts)
+	newMu.Unlock()
 	if err != nil {
 		return fmt.Errorf("app.New: %w", err)
 	}
